@@ -121,6 +121,25 @@ def prog(g: grid.Grid[Any, Any], n: int, s):
     rr(g, n, s)
     rrr = schedule.reverse(rr)
     rrr(g, s=s, n=n)
+
+@move
+def undo(task):
+    return schedule.reverse(task)
+
+@move
+def undo_and_play(task, g: grid.Grid[Any, Any], n: int, s):
+    r = schedule.reverse(task)
+    r(g, n, s)
+
+@move
+def prog2(g: grid.Grid[Any, Any], n: int, s):
+    # the reversals happen in helper kernels: what is reversed there is a parameter, not the result of a visible `reverse`
+    f = schedule.device_fn(kern, ilist.IList([0, 1]), ilist.IList([0]))
+    f(g, n, s)
+    undo_and_play(f, g, n, s)
+    undo_and_play(schedule.reverse(f), g, n, s)
+    rrr = schedule.reverse(undo(undo(f)))
+    rrr(g, s=s, n=n)
 '''
 
 
@@ -135,25 +154,26 @@ def schedule_level(ctx, spec):
     metas = []
     for n in range(0, 4):
         for s in (slice(None), slice(0, 1), ilist.IList([0]), ilist.IList([0, 1])):
-            g = Grid.from_positions([0.0, float(2 + n)], [1.0])
-            ev = run_with_events(mod.prog, spec, (g, n, s))
-            if ev.error is not None:
-                ctx.fail({"schedule": True, "n": n, "sel": T.canon_sel(s)},
-                         f"schedule-level run raised {ev.error}")
-                continue
-            ps = [e[1] for e in ev.events if e[0] == "play"]
-            if len(ps) != 4:
-                raise HarnessFault(f"expected 4 played paths, got {len(ps)}")
-            cps = [T.canon_path(p.path) for p in ps]
-            case = {"schedule": True, "n": n, "sel": T.canon_sel(s)}
-            ctx.seen(("sched", n, T.canon_sel(s)), True)
-            ctx.count("schedule_runs")
-            if cps[0] != cps[2]:
-                ctx.fail(case, "reverse(reverse(f)) does not behave as f")
-            if cps[1] != cps[3]:
-                ctx.fail(case, "reverse^3(f) does not behave as reverse(f)")
-            reqs.append(cps[0])
-            metas.append((case, cps[1]))
+          for prog in (mod.prog, mod.prog2):
+              g = Grid.from_positions([0.0, float(2 + n)], [1.0])
+              ev = run_with_events(prog, spec, (g, n, s))
+              if ev.error is not None:
+                  ctx.fail({"schedule": True, "n": n, "sel": T.canon_sel(s)},
+                           f"schedule-level run raised {ev.error}")
+                  continue
+              ps = [e[1] for e in ev.events if e[0] == "play"]
+              if len(ps) != 4:
+                  raise HarnessFault(f"expected 4 played paths, got {len(ps)}")
+              cps = [T.canon_path(p.path) for p in ps]
+              case = {"schedule": True, "program": prog.sym_name, "n": n, "sel": T.canon_sel(s)}
+              ctx.seen(("sched", prog.sym_name, n, T.canon_sel(s)), True)
+              ctx.count("schedule_runs")
+              if cps[0] != cps[2]:
+                  ctx.fail(case, "reverse(reverse(f)) does not behave as f")
+              if cps[1] != cps[3]:
+                  ctx.fail(case, "reverse^3(f) does not behave as reverse(f)")
+              reqs.append(cps[0])
+              metas.append((case, cps[1]))
     flips = ctx.driver([f"(C02 (flip {r}))" for r in reqs])
     for (case, got), want in zip(metas, flips):
         if "ok " + got != want:
